@@ -26,22 +26,19 @@ theorem samplePreds_spec (c : Cfg) (h w : Nat) : ∀ (n : Nat) (tape : List Nat)
     unfold samplePreds at hs
     by_cases hc : top < c.H - h ∧ left < c.W - w
     · simp only [hc, and_self, if_true] at hs
-      by_cases h1 : (sampleBlock c h w top left).idx.length = 1
-      · simp [h1] at hs
-      · simp only [h1, if_false] at hs
-        cases hr : samplePreds c h w n tape with
-        | error e => simp [hr] at hs
-        | ok p =>
-          obtain ⟨bs', rest'⟩ := p
-          simp only [hr, Except.ok.injEq, Prod.mk.injEq] at hs
-          obtain ⟨rfl, _⟩ := hs
-          obtain ⟨il, ib⟩ := samplePreds_spec c h w n tape bs' rest' hr
-          refine ⟨by simp [il], ?_⟩
-          intro b hb
-          simp only [List.mem_cons] at hb
-          rcases hb with rfl | hb
-          · exact ⟨top, left, hc.1, hc.2, rfl⟩
-          · exact ib b hb
+      cases hr : samplePreds c h w n tape with
+      | error e => simp [hr] at hs
+      | ok p =>
+        obtain ⟨bs', rest'⟩ := p
+        simp only [hr, Except.ok.injEq, Prod.mk.injEq] at hs
+        obtain ⟨rfl, _⟩ := hs
+        obtain ⟨il, ib⟩ := samplePreds_spec c h w n tape bs' rest' hr
+        refine ⟨by simp [il], ?_⟩
+        intro b hb
+        simp only [List.mem_cons] at hb
+        rcases hb with rfl | hb
+        · exact ⟨top, left, hc.1, hc.2, rfl⟩
+        · exact ib b hb
     · simp [hc] at hs
 
 theorem constrainedLoop_spec (c : Cfg) (h w : Nat) (regions : List (List Bool)) :
@@ -81,28 +78,25 @@ theorem sampleEncs_spec (c : Cfg) (h w : Nat) (regions : List (List Bool)) :
     | ok r =>
       obtain ⟨idx, t, rest1⟩ := r
       simp only [hl] at hs
-      by_cases h1 : idx.length = 1
-      · simp [h1] at hs
-      · simp only [h1, if_false] at hs
-        cases hr : sampleEncs c h w regions n rest1 with
-        | error e => simp [hr] at hs
-        | ok p =>
-          obtain ⟨ms', rest'⟩ := p
-          simp only [hr, Except.ok.injEq, Prod.mk.injEq] at hs
-          obtain ⟨rfl, _⟩ := hs
-          obtain ⟨e1, e2⟩ := constrainedLoop_spec c h w regions tape 0 idx t rest1 hl
-          obtain ⟨il, ie, i0⟩ := sampleEncs_spec c h w regions n rest1 ms' rest' hr
-          refine ⟨by simp [il], ?_, ?_⟩
-          · intro e he
-            simp only [List.mem_cons] at he
-            rcases he with rfl | he
-            · exact e1
-            · exact ie e he
-          · intro hall e he
-            simp only [List.mem_cons] at he
-            rcases he with rfl | he
-            · exact e2 hall
-            · exact i0 hall e he
+      cases hr : sampleEncs c h w regions n rest1 with
+      | error e => simp [hr] at hs
+      | ok p =>
+        obtain ⟨ms', rest'⟩ := p
+        simp only [hr, Except.ok.injEq, Prod.mk.injEq] at hs
+        obtain ⟨rfl, _⟩ := hs
+        obtain ⟨e1, e2⟩ := constrainedLoop_spec c h w regions tape 0 idx t rest1 hl
+        obtain ⟨il, ie, i0⟩ := sampleEncs_spec c h w regions n rest1 ms' rest' hr
+        refine ⟨by simp [il], ?_, ?_⟩
+        · intro e he
+          simp only [List.mem_cons] at he
+          rcases he with rfl | he
+          · exact e1
+          · exact ie e he
+        · intro hall e he
+          simp only [List.mem_cons] at he
+          rcases he with rfl | he
+          · exact e2 hall
+          · exact i0 hall e he
 
 /-- what one sample of the batch holds -/
 def SampleOk (c : Cfg) (p e : Nat × Nat) (s : SampleMasks) : Prop :=
